@@ -507,6 +507,40 @@ func (g *G) GenSet() []*Mod {
 				}
 			}
 		}
+		// an augment written in the submodule: of the module's own tree (through the belongs-to prefix) or of a tree of
+		// a module the submodule imports
+		if sub := subs[i]; sub != nil && !cfg.NoAugments && g.Chance(1, 3, "subaugment") {
+			ssc := &scope{mod: sub}
+			for _, imp := range sub.Imports {
+				for j, mm := range mods {
+					if mm.Name == imp.Mod {
+						g.see(ssc, imp.Prefix+":", mm)
+						if s2 := subs[j]; s2 != nil {
+							g.see(ssc, imp.Prefix+":", s2)
+						}
+					}
+				}
+			}
+			g.see(ssc, "", sub)
+			tpfx, target := m.Prefix, m
+			if len(sub.Imports) > 0 && g.Bool("subaugforeign") {
+				imp := sub.Imports[g.Pick(len(sub.Imports), "subaugimp")]
+				for _, mm := range mods {
+					if mm.Name == imp.Mod {
+						tpfx, target = imp.Prefix, mm
+					}
+				}
+			}
+			if len(target.Nodes) > 0 {
+				tn := target.Nodes[g.Pick(len(target.Nodes), "subaugtarget")]
+				if len(tn.IfFeatures) == 0 && tn.When == "" {
+					a := &Augment{Target: "/" + tpfx + ":" + tn.Name}
+					a.Kids = []*Node{g.leaf(ssc, tn.Config == "false", g.id("saug"))}
+					a.Kids[0].Mandatory = ""
+					sub.Augments = append(sub.Augments, a)
+				}
+			}
+		}
 		if !cfg.NoRpcs && g.Chance(1, 4, "rpc") {
 			m.Rpcs = append(m.Rpcs, &Rpc{Name: g.id("rpc"), Input: []*Node{g.leaf(sc, true, g.id("in"))}, Output: []*Node{g.leaf(sc, true, g.id("out"))}})
 			m.Rpcs[0].Input[0].Config = ""
